@@ -88,6 +88,90 @@ func C09(r *h.Run) {
 		}
 	}
 
+	// one compression OPTION VALUE shared by two handlers (and two clients) with different read
+	// limits: each enforces its own limit on the decompressed size, whichever was built last
+	{
+		shared := h.WithRLE()
+		sharedAccept := h.WithAcceptRLE()
+		bomb := []byte{200, 'a', 200, 'a', 200, 'a'} // RLE: 600 bytes from 6
+		for _, order := range []string{"small limit built first", "small limit built last"} {
+			limits := []int{64, 1 << 20}
+			if order == "small limit built last" {
+				limits = []int{1 << 20, 64}
+			}
+			ran := map[int]int{}
+			mk := func(max int) *connect.Handler {
+				return connect.NewUnaryHandler("/verif.Svc/Unary", func(_ context.Context, req *connect.Request[h.Raw]) (*connect.Response[h.Raw], error) {
+					ran[max] = len(req.Msg.B)
+					return connect.NewResponse(&h.Raw{B: []byte("ok")}), nil
+				}, connect.WithCodec(h.ToyCodec{}), shared, connect.WithReadMaxBytes(max))
+			}
+			handlers := map[int]*connect.Handler{}
+			for _, max := range limits {
+				handlers[max] = mk(max)
+			}
+			for _, proto := range protos {
+				cfg := envCfg{Proto: proto}
+				unary := proto == "connect"
+				body := h.Frame(1, bomb)
+				if unary {
+					body = bomb
+				}
+				req := httptest.NewRequest(http.MethodPost, "/verif.Svc/Unary", bytes.NewReader(body))
+				req.Header.Set("Content-Type", cfg.contentType(true))
+				req.Header.Set(cfg.encodingHeader(unary), "rle")
+				delete(ran, 64)
+				p := safely(func() { handlers[64].ServeHTTP(httptest.NewRecorder(), req) })
+				in := map[string]any{"proto": proto, "direction": "handler", "limits_of_the_two_handlers_sharing_the_option": limits, "order": order, "wire_bytes": len(bomb), "decompressed_bytes": 600, "served_by": "the handler with limit 64"}
+				r.Eval("shared_compression_option", fmt.Sprint(proto, order))
+				if p != nil {
+					r.Fail(h.Failure{Key: "limit/panic", Family: "shared_compression_option", What: fmt.Sprint("panic: ", p), Input: in})
+				}
+				if n, ok := ran[64]; ok {
+					r.Fail(h.Failure{Key: "limit/delivered-beyond-limit", Family: "shared_compression_option", What: fmt.Sprintf("a message that decompresses to %d bytes reached the user code of a handler limited to 64", n), Input: in})
+				}
+			}
+			// clients
+			for _, proto := range protos {
+				cfg := envCfg{Proto: proto}
+				mkc := func(max int) []connect.ClientOption {
+					opts := []connect.ClientOption{connect.WithCodec(h.ToyCodec{}), sharedAccept, connect.WithReadMaxBytes(max)}
+					switch proto {
+					case "grpc":
+						opts = append(opts, connect.WithGRPC())
+					case "grpcweb":
+						opts = append(opts, connect.WithGRPCWeb())
+					}
+					return opts
+				}
+				hdr, term, trailer := responseParts(cfg)
+				hdr.Set(cfg.encodingHeader(false), "rle")
+				body := append(h.Frame(1, bomb), term...)
+				var got [][]byte
+				canned := &h.CannedClient{Build: func(*http.Request) (*http.Response, error) {
+					return h.NewResponse(200, hdr.Clone(), h.NewChunkBody([][]byte{body}, h.FinCleanEOF), trailer.Clone()), nil
+				}}
+				clients := map[int]*connect.Client[h.Raw, h.Raw]{}
+				for _, max := range limits { // both are built before either is used
+					clients[max] = connect.NewClient[h.Raw, h.Raw](canned, "http://verif.local/verif.Svc/Stream", mkc(max)...)
+				}
+				if st, err := clients[64].CallServerStream(context.Background(), connect.NewRequest(&h.Raw{B: []byte("q")})); err == nil {
+					for st.Receive() {
+						got = append(got, st.Msg().B)
+					}
+					_ = st.Close()
+				}
+				in := map[string]any{"proto": proto, "direction": "client", "limits_of_the_two_clients_sharing_the_option": limits, "order": order}
+				r.Eval("shared_compression_option", fmt.Sprint("client", proto, order))
+				for _, m := range got {
+					if len(m) > 64 {
+						r.Fail(h.Failure{Key: "limit/delivered-beyond-limit", Family: "shared_compression_option", What: fmt.Sprintf("a message that decompresses to %d bytes was delivered by a client limited to 64", len(m)), Input: in})
+					}
+				}
+			}
+		}
+	}
+
 	type item struct {
 		frame   []byte
 		deliver []byte // nil slice with ok=false means "must be refused"
